@@ -794,6 +794,7 @@ class Tr:
         return self.callable_named(node.id, node)
 
     def callable_named(self, name, node):
+        name = getattr(self.mod, "aliases", {}).get(name, name)
         for mm in [self.mod] + self.mod.imports:
             if name in mm.variants:
                 return Fn(lambda tr, nd, args, kwargs, mm=mm, name=name: tr.call_variant(nd, mm, name, args, kwargs))
@@ -1568,6 +1569,8 @@ BUILTINS = {
     "max": _minmax("Rmax"), "min": _minmax("Rmin"),
     "np.array": _array, "np.zeros": _zeros, "np.ndim": _ndim, "np.size": _size,
     "float": _float, "len": _len, "np.clip": _clip, "np.minimum": _minimum, "np.arange": _arange,
+    "np.ones_like": lambda tr, node, args, kwargs: (DL(f"(map (fun _ => 1) {args[0].t})") if len(args) == 1 and not kwargs and isinstance(args[0], DL)
+                                                     else Sc("1") if len(args) == 1 and not kwargs and isinstance(args[0], Sc) else fail(node, "np.ones_like form")),
     "np.full_like": _full_like, "np.empty_like": _empty_like, "np.result_type": _result_type,
     "cumulative_trapezoid": _cumtrapz, "sp.integrate.cumulative_trapezoid": _cumtrapz,
     "integrate.cumulative_trapezoid": _cumtrapz,
